@@ -75,6 +75,16 @@ func c14RoundTrip(c *core.Ctx, site string, sh gen.Shape, input []byte, ser func
 	c.Bucket("chain-ok/" + site)
 }
 
+// wrongLen picks a length that is not n: off by one or a few, and congruent to n modulo 2^8 and
+// 2^16 (a length check carried out in the width of the wire field wraps around).
+func wrongLen(r *core.Rand, n int) int {
+	opts := []int{n + 1, n + 1 + r.Pick(8), n + 256, n + 65536, n + 131072}
+	if n > 0 {
+		opts = append(opts, n-1, 0)
+	}
+	return opts[r.Pick(len(opts))]
+}
+
 // c14Defect is clause (c): a documented structural defect must be rejected.
 func c14Defect(c *core.Ctx, site, defect string, sh gen.Shape, rejected bool, detail string) {
 	c.Eval(1)
@@ -465,6 +475,15 @@ func runC14(c *core.Ctx) {
 			}
 			c14Defect(c, "lease_set2.NewLeaseSet2", defect, gen.Shape{}, err != nil, "constructor accepted")
 			// the validator on the same shape, reached through the parser where the parser admits it
+			// (a key longer than 65,535 bytes has no encoding: the length field would wrap, and the
+			// encoding would no longer carry the defect)
+			encodable := true
+			for _, k := range x.Keys {
+				encodable = encodable && len(k.Data) <= 65535
+			}
+			if !encodable {
+				return
+			}
 			if p, _, perr := lease_set2.ReadLeaseSet2(x.Encode()); perr == nil {
 				c14Defect(c, "lease_set2.LeaseSet2.Validate", defect, gen.Shape{}, p.Validate() != nil, "validator accepted a parsed value with the defect")
 			}
@@ -477,7 +496,7 @@ func runC14(c *core.Ctx) {
 					x.Keys = append(x.Keys, rm.EncKey{Type: 4, Data: r.Bytes(32)})
 				}
 				k := r.Pick(len(x.Keys)) // the defective key is not always the first one
-				x.Keys[k].Data = r.Bytes(len(x.Keys[k].Data) + 1 + r.Pick(8))
+				x.Keys[k].Data = r.Bytes(wrongLen(r, len(x.Keys[k].Data)))
 			})
 		case 1:
 			try("reserved flag bits set", func(x *rm.LeaseSet2) { x.Flags |= uint16(1) << uint(3+r.Pick(13)) })
@@ -572,7 +591,7 @@ func runC14(c *core.Ctx) {
 			return
 		case 3:
 			x := m
-			x.BlindedKey = r.Bytes(31 + 2*r.Pick(2))
+			x.BlindedKey = r.Bytes(wrongLen(r, 32))
 			_, err := lib.BuildEncryptedLeaseSet(x, key.Ed25519Private())
 			c14Defect(c, "encrypted_leaseset.NewEncryptedLeaseSet", "blinded key length does not match its type", nil, err != nil, "")
 			return
@@ -610,9 +629,9 @@ func runC14(c *core.Ctx) {
 			})
 		}
 		if i%6 == 0 {
-			_, err := offline_signature.NewOfflineSignature(1, m.SigType, append(append([]byte{}, m.TransientKey...), 0), m.Sig, uint16(ds))
+			_, err := offline_signature.NewOfflineSignature(1, m.SigType, r.Bytes(wrongLen(r, len(m.TransientKey))), m.Sig, uint16(ds))
 			c14Defect(c, "offline_signature.NewOfflineSignature", "transient key length does not match its type", nil, err != nil, "")
-			_, err = offline_signature.NewOfflineSignature(1, m.SigType, m.TransientKey, m.Sig[:len(m.Sig)-1], uint16(ds))
+			_, err = offline_signature.NewOfflineSignature(1, m.SigType, m.TransientKey, r.Bytes(wrongLen(r, len(m.Sig))), uint16(ds))
 			c14Defect(c, "offline_signature.NewOfflineSignature", "signature length does not match the destination type", nil, err != nil, "")
 		}
 	})
@@ -634,7 +653,7 @@ func runC14(c *core.Ctx) {
 				return p.Bytes(), len(rem), nil
 			})
 		}
-		_, err = signature.NewSignatureFromBytes(b[:sl-1], st)
+		_, err = signature.NewSignatureFromBytes(r.Bytes(wrongLen(r, sl)), st)
 		c14Defect(c, "signature.NewSignatureFromBytes", "signature length does not match its type", gen.Shape{"sigtype": st}, err != nil, "")
 	})
 }
